@@ -121,7 +121,7 @@ def run(tier, selftest):
     summ = replay_cases(binp, cases, rep, alphabet)
 
     # B3: random histories -> trace validation
-    traces, steps, names = (800, 2000, 64) if thorough else (40, 250, 24)
+    traces, steps, names = (400, 2000, 64) if thorough else (40, 250, 24)
     tp = os.path.join(vlib.scratch(), "itemlist_trace.ndjson")
     rc, lines, err = vlib.run_harness(binp, ["itemlist-record", "--seed", vlib.seed(), "--traces", traces, "--steps", steps,
                                              "--names", names, "--out", tp], timeout=600)
